@@ -128,7 +128,7 @@ func c15Enumerate(tier string, seed int64, emit func(string, any)) {
 		emit("contexts", c15Case{Pre: "&pa = " + t + "; func pg(){ pa + 1 }", Src: "pg()"})
 	}
 	for _, t := range []string{"2d", "d", "3dk2", "2dq1", "2ddl1", "2dmin2", "2dmax2", "d + 2d", "func g(){ 2d }; g()", "&a = 2d; a + a"} {
-		for _, def := range []string{"3", "1+2", "4"} {
+		for _, def := range []string{"3", "1+2", "4", "2d2+1", "d3"} { // (the last two: the number of sides is itself rolled, so it is part of the formula)
 			emit("faceless", c15Case{Src: t, Def: def})
 		}
 	}
@@ -279,6 +279,32 @@ func c15Run(raw json.RawMessage) harn.Result {
 		}
 		if v, ok := m.Ret.ReadInt(); !ok || (min && int(v) != mn) || (!min && int(v) != mx) {
 			viol("C15:mode-depends-on-seeding", fmt.Sprintf("unseeded VM, min=%v gives %s; the seeded VM gave %d / %d", min, m.Ret.ToString(), mn, mx))
+		}
+	}
+	// the two-step form: Parse, THEN choose the mode, then RunAfterParsed (the mode in force when the program runs decides)
+	for _, min := range []bool{true, false} {
+		cfg := base
+		cfg.Seed = 11
+		m := drv.NewVM(cfg)
+		if c.Pre != "" {
+			if err := m.Run(c.Pre); err != nil {
+				panic(err)
+			}
+		}
+		if err := m.Parse(c.Src); err != nil {
+			break
+		}
+		m.Config.DiceMinMode, m.Config.DiceMaxMode = min, !min
+		before, _ := m.GetCurSeed()
+		rolls = 0
+		if err := m.RunAfterParsed(); err != nil {
+			viol("C15:mode-run-error", fmt.Sprintf("Parse, then min=%v, then RunAfterParsed: %v", min, err))
+			continue
+		}
+		after, _ := m.GetCurSeed()
+		v, ok := m.Ret.ReadInt()
+		if !ok || (min && int(v) != mn) || (!min && int(v) != mx) || rolls != 0 || !bytes.Equal(before, after) {
+			viol("C15:mode-set-between-parse-and-run", fmt.Sprintf("Parse, then min=%v, then RunAfterParsed: result %s, %d draws, generator moved=%v; Run under that mode gives min %d / max %d", min, m.Ret.ToString(), rolls, !bytes.Equal(before, after), mn, mx))
 		}
 	}
 	// ONE VM whose mode is switched between evaluations (random -> min -> max -> min): every evaluation obeys the mode in
